@@ -34,6 +34,11 @@
 (*               against the SAME node -- then 502                         *)
 (*   (forwarding = BuildHTTPRequest strips the client's marker, doForward  *)
 (*    sets X-Arc-Forwarded-By to the local node id)                        *)
+(*   Reconfig    between two requests on the SAME routers the node that    *)
+(*               served the first (forwarded) request re-registers with    *)
+(*               another role / writer state or changes health; the same   *)
+(*               request is then sent again (round 2).  As written the     *)
+(*               router keeps no memory of earlier targets.                *)
 (* Endpoints in NoPrologue are handlers that have no routing prologue in   *)
 (* the code (they always process locally); they are modelled as they are.  *)
 (***************************************************************************)
@@ -44,6 +49,9 @@ CONSTANTS MaxNodes,       \* 1..4
           QueryEps,       \* set of query endpoint names
           NoPrologue,     \* subset of endpoints whose handler has no routing prologue
           Retries,        \* RouterConfig.Retries (attempts = Retries + 1)
+          RemembersPrimary, \* FALSE = as written: RouteWrite asks the registry for the primary on every call;
+                          \* TRUE = negative control: the router reuses the last primary's id while that
+                          \* node is registry-healthy, whatever role / writer state it has now
           RetrySwitchesPeer, \* FALSE = as written: every retry goes to the same node; TRUE = negative control:
                           \* a retry moves to another healthy non-compactor peer whatever the request kind
           Emit            \* TRUE: print one TRACE line per terminal state
@@ -78,9 +86,15 @@ VARIABLES cfg,      \* Seq(Types); node 1 is the entry node
           proc,     \* node that processed the request locally (0 = none)
           outcome,  \* "pending" | "local" | "loop508" | "none503" | "fail502"
           tgt,      \* node the router is currently trying to forward to (0 = none)
-          tries     \* failed attempts so far
+          tries,    \* failed attempts so far
+          round,    \* 1 | 2
+          cfg0,     \* configuration of round 1
+          r1,       \* outcome of round 1 (history)
+          chg,      \* <<node, new type>> applied between the rounds (<<0, 0>> = none)
+          lastPrimary \* entry router's remembered primary (only used when RemembersPrimary)
 
-vars == <<cfg, ep, hdr, at, marked, phase, hops, proc, outcome, tgt, tries>>
+aux  == <<round, cfg0, r1, chg>>
+vars == <<cfg, ep, hdr, at, marked, phase, hops, proc, outcome, tgt, tries, round, cfg0, r1, chg, lastPrimary>>
 
 N        == Len(cfg)
 Kind(i)  == KindOf(cfg[i])
@@ -93,22 +107,23 @@ Init == /\ cfg \in Configs
         /\ hdr \in Hdrs
         /\ at = 1 /\ marked = (hdr # "none")
         /\ phase = "recv" /\ hops = 0 /\ proc = 0 /\ outcome = "pending" /\ tgt = 0 /\ tries = 0
+        /\ round = 1 /\ cfg0 = cfg /\ r1 = [outcome |-> "", proc |-> 0, hops |-> 0] /\ chg = <<0, 0>> /\ lastPrimary = 0
 
 Finish(o, p) == /\ phase' = "done" /\ outcome' = o /\ proc' = p
-                /\ UNCHANGED <<cfg, ep, hdr, at, marked, hops, tgt, tries>>
+                /\ UNCHANGED <<cfg, ep, hdr, at, marked, hops, tgt, tries, aux>>
 
 \* decideForward + the handler's switch
 Decide ==
-    /\ phase = "recv"
+    /\ phase = "recv" /\ UNCHANGED lastPrimary
     /\ IF ep \in NoPrologue \/ ~HasRouter(Kind(at)) THEN Finish("local", at)     \* router == nil / no prologue
        ELSE IF Capable(at) THEN Finish("local", at)                              \* CanRouteLocally: header not consulted
        ELSE IF marked THEN Finish("loop508", 0)                                  \* ForwardAlreadyForwarded
        ELSE /\ phase' = "route"                                                  \* ForwardToPeer
-            /\ UNCHANGED <<cfg, ep, hdr, at, marked, hops, proc, outcome, tgt, tries>>
+            /\ UNCHANGED <<cfg, ep, hdr, at, marked, hops, proc, outcome, tgt, tries, aux>>
 
 \* forwardRequest(node): start the attempt loop against the selected node
 Forward(t) == /\ tgt' = t /\ tries' = 0 /\ phase' = "fwd"
-              /\ UNCHANGED <<cfg, ep, hdr, at, marked, hops, proc, outcome>>
+              /\ UNCHANGED <<cfg, ep, hdr, at, marked, hops, proc, outcome, aux>>
 
 \* where the next attempt goes after a failed one
 NextTarget(failed) ==
@@ -121,34 +136,50 @@ Attempt ==
     /\ phase = "fwd"
     /\ IF Reach(cfg[tgt])
          THEN /\ at' = tgt /\ marked' = TRUE /\ hops' = hops + 1 /\ phase' = "recv" /\ tgt' = 0
-              /\ UNCHANGED <<cfg, ep, hdr, proc, outcome, tries>>
+              /\ UNCHANGED <<cfg, ep, hdr, proc, outcome, tries, aux, lastPrimary>>
          ELSE IF tries < Retries
          THEN /\ tries' = tries + 1 /\ tgt' \in NextTarget(tgt)
-              /\ UNCHANGED <<cfg, ep, hdr, at, marked, hops, phase, proc, outcome>>
-         ELSE Finish("fail502", 0)                                \* ErrRoutingFailed
+              /\ UNCHANGED <<cfg, ep, hdr, at, marked, hops, phase, proc, outcome, aux, lastPrimary>>
+         ELSE Finish("fail502", 0) /\ UNCHANGED lastPrimary       \* ErrRoutingFailed
 
 Primaries == { i \in 1..N : Kind(i) = "wp" /\ Up(i) }      \* Registry.GetPrimaryWriter
 Writers   == { i \in 1..N : IsWriterK(Kind(i)) /\ Up(i) }  \* Registry.GetWriters
 Readers   == { i \in 1..N : Kind(i) = "rd" /\ Up(i) }      \* Registry.GetReaders
 
-WriteTargets == IF Primaries # {} THEN Primaries ELSE Writers
+Remembered   == RemembersPrimary /\ lastPrimary # 0 /\ Up(lastPrimary)
+WriteTargets == IF Remembered THEN {lastPrimary} ELSE IF Primaries # {} THEN Primaries ELSE Writers
 QueryTargets == IF Readers # {} THEN Readers ELSE Writers
 
 RouteWrite ==
     /\ phase = "route" /\ IsWrite
-    /\ IF CanIngestK(Kind(at)) THEN Finish("local", at)        \* ErrLocalNodeCanHandle -> goto localProcessing
-       ELSE IF WriteTargets = {} THEN Finish("none503", 0)     \* ErrNoWriterAvailable
-       ELSE \E t \in WriteTargets : Forward(t)
+    /\ IF CanIngestK(Kind(at)) THEN Finish("local", at) /\ UNCHANGED lastPrimary   \* ErrLocalNodeCanHandle
+       ELSE IF WriteTargets = {} THEN Finish("none503", 0) /\ UNCHANGED lastPrimary  \* ErrNoWriterAvailable
+       ELSE \E t \in WriteTargets :
+              /\ Forward(t)
+              /\ lastPrimary' = IF RemembersPrimary /\ (Remembered \/ Primaries # {}) THEN t
+                                ELSE IF RemembersPrimary THEN 0 ELSE lastPrimary
 
 RouteQuery ==
     /\ phase = "route" /\ ~IsWrite
+    /\ UNCHANGED lastPrimary
     /\ IF CanQueryK(Kind(at)) THEN Finish("local", at)
        ELSE IF QueryTargets = {} THEN Finish("none503", 0)     \* ErrNoReaderAvailable
        ELSE \E t \in QueryTargets : Forward(t)
 
+\* the node that served the forwarded request re-registers / changes health; same request again
+NewTypes(t) == { u \in Types : u # t /\ ( (Stat(u) = 0 /\ KindOf(u) \in {"wp", "ws", "wn", "rd", "cp"})
+                                         \/ (KindOf(u) = KindOf(t) /\ Stat(u) # 0) ) }
+Reconfig ==
+    /\ phase = "done" /\ round = 1 /\ hops = 1 /\ outcome = "local"
+    /\ \E nt \in NewTypes(cfg[at]) : /\ cfg' = [cfg EXCEPT ![at] = nt] /\ chg' = <<at, nt>>
+    /\ r1' = [outcome |-> outcome, proc |-> proc, hops |-> hops]
+    /\ round' = 2 /\ at' = 1 /\ marked' = (hdr # "none") /\ phase' = "recv"
+    /\ hops' = 0 /\ proc' = 0 /\ outcome' = "pending" /\ tgt' = 0 /\ tries' = 0
+    /\ UNCHANGED <<ep, hdr, cfg0, lastPrimary>>
+
 Done == phase = "done" /\ UNCHANGED vars
 
-Next == Decide \/ RouteWrite \/ RouteQuery \/ Attempt \/ Done
+Next == Decide \/ RouteWrite \/ RouteQuery \/ Attempt \/ Reconfig \/ Done
 Spec == Init /\ [][Next]_vars
 
 -----------------------------------------------------------------------------
@@ -156,20 +187,24 @@ Spec == Init /\ [][Next]_vars
 AtMostOneForward   == hops <= 1
 ProcessedByCapable == proc # 0 => Capable(proc)
 ServedWhereReceived == (phase = "done" /\ Capable(1)) => (proc = 1 /\ hops = 0 /\ outcome = "local")
+\* a request that arrives carrying the forwarded-by marker is never forwarded (again), whatever the value
+MarkedNeverForwarded == hdr # "none" => hops = 0
 ForwardedToCapable == hops = 1 => Capable(at)
 ForwardedIsServed  == (phase = "done" /\ hops = 1) => (proc = at /\ outcome = "local")
 \* an incapable entry node never serves; with a client marker it answers 508 whatever else holds
 SpoofedMarker      == (phase = "done" /\ ~Capable(1) /\ hdr # "none" /\ HasRouter(Kind(1)) /\ ep \notin NoPrologue)
                          => (outcome = "loop508" /\ proc = 0 /\ hops = 0)
-Safety == AtMostOneForward /\ ProcessedByCapable /\ ServedWhereReceived /\ ForwardedToCapable
+Safety == AtMostOneForward /\ ProcessedByCapable /\ ServedWhereReceived /\ MarkedNeverForwarded /\ ForwardedToCapable
           /\ ForwardedIsServed /\ SpoofedMarker
 
 TypeOK == /\ at \in 1..N /\ proc \in 0..N /\ hops \in 0..2
+          /\ round \in 1..2 /\ lastPrimary \in 0..N
           /\ phase \in {"recv", "route", "fwd", "done"} /\ tgt \in 0..N /\ tries \in 0..Retries
           /\ outcome \in {"pending", "local", "loop508", "none503", "fail502"}
 
 EmitInv ==
     (Emit /\ phase = "done") =>
-        PrintT(<<"TRACE", ToJson([nodes |-> [i \in 1..N |-> cfg[i]], ep |-> ep, hdr |-> hdr,
-                                  outcome |-> outcome, proc |-> proc, hops |-> hops])>>)
+        PrintT(<<"TRACE", ToJson([round |-> round, nodes |-> [i \in 1..N |-> cfg0[i]], ep |-> ep, hdr |-> hdr,
+                                  outcome |-> outcome, proc |-> proc, hops |-> hops,
+                                  r1proc |-> r1.proc, chgnode |-> chg[1], chgtype |-> chg[2]])>>)
 =============================================================================
